@@ -15,7 +15,8 @@ TInit == PInit /\ failOn = FALSE /\ l = 1
 TNext ==
     \/ Is("reset") /\ P_Reset(E.fail)
     \/ Is("step") /\ P_Step
-    \/ Is("send") /\ P_Send(E.src, E.dst, E.t, E.lat, E.cmin, E.cmax) /\ Len(msgs) + 1 = E.id
+    \/ Is("send") /\ P_SendK(E.src, E.dst, E.t, E.lat, E.cmin, E.cmax,
+                            IF "kind" \in DOMAIN E THEN E.kind ELSE "dgram") /\ Len(msgs) + 1 = E.id
     \/ Is("recv") /\ P_Recv(E.id, E.h, E.at)
     \/ Is("ctl") /\ P_Ctl(E.op, E.a, E.b, E.by)
     \/ Is("manual") /\ P_ManualDeliver(E.id)
